@@ -30,8 +30,8 @@ def plan(tier, seed):
 
 
 def floors(tier):
-    return {"evaluations": 20000, "strata": ["random", "threshold", "exact-multiples", "integers", "narrow"],
-            "events": {"LinearScale.ticks": 20000, "LinearScale.tickFormat": 20000}, "distinct_nontrivial": 5000}
+    return {"evaluations": 8000, "strata": ["random", "threshold", "exact-multiples", "integers", "narrow"],
+            "events": {"LinearScale.ticks": 8000, "LinearScale.tickFormat": 8000}, "distinct_nontrivial": 5000}
 
 
 def run_case(ctx, S, a, b, m, tag):
